@@ -2,7 +2,7 @@
 # tools/try_seed.sh <patch.diff> <check ids...>: like run_seed.sh but against a scratch
 # worktree (/tmp/dbg_repo), so /repo stays untouched and other work can go on.
 patch="$(readlink -f "$1")"; shift
-wt=/tmp/dbg_repo; out=/tmp/dbg_out
+wt=/tmp/dbg_repo${TRY_TAG}; out=/tmp/dbg_out${TRY_TAG}
 [ -d $wt ] || git -C /repo worktree add -q --detach $wt HEAD
 mkdir -p $out
 git -C $wt checkout -q -- . ; git -C $wt apply "$patch" || { echo "patch does not apply"; exit 2; }
